@@ -36,8 +36,9 @@ Proved on the model:
 
 * `Sprint(Sprint(a...)) = Sprint(a...)` as the property states it, for every argument list
   with clean payloads (`sprint_sprint_identity`, from `Proofs/Clean.lean`: clean inputs give outputs
-  that end in a complete character, by an induction over the 16 functions reachable from `doPrint`;
-  nested `Printf` calls in user methods excluded).
+  that end in a complete character, by an induction over all 21 printer functions; formats valid
+  UTF-8: every position the directive parser reaches is a character boundary), and
+  `Sprint(Sprintf(f, a...)) = Sprintf(f, a...)` (`sprint_sprintf_identity`).
 
 NOT proved: closed forms for whole formats or containers (e.g. `Sprint([]RedactableString{r1,r2})
 = "[" r1 " " r2 "]"` as one equation); JoinTo on a writer other than a fresh StringBuilder. Decided
@@ -342,12 +343,18 @@ theorem strip_join (d : List Byte) (hd : Obtainable d) (ss : List (List Byte)) (
 /-- **`Sprint(Sprint(a...)) = Sprint(a...)`**, for every argument list whose payloads end in complete
 characters (`ListCl`: type and field names ASCII, the payloads of user methods' calls and the
 oracle's renderings ending in a complete character, embedded redactables finished and clean;
-nested `Printf` calls in user methods are not covered): the output ends in a complete character
+nested `Printf` calls with valid UTF-8 formats included): the output ends in a complete character
 (`sprint_output_clean`), so printing it again copies it and adds nothing. -/
 theorem sprint_sprint_identity (env : Env) (he : EnvCl env) (args : List Val) (ha : ListCl args) (q : PP)
     (h : sprint env args = .ok q) (ty : List Byte) :
     (sprint env [.redactable q.buf.redactableBytes ty]).output = some q.buf.redactableBytes :=
   sprint_reprint_identity env _ ty (sprint_output_clean env he args ha q h).2
+
+/-- **`Sprint(Sprintf(f, a...)) = Sprintf(f, a...)`** for every valid UTF-8 format and clean operands. -/
+theorem sprint_sprintf_identity (env : Env) (he : EnvCl env) (f : List Byte) (hf : Utf8 f) (args : List Val) (ha : ListCl args)
+    (q : PP) (h : sprintf env f args = .ok q) (ty : List Byte) :
+    (sprint env [.redactable q.buf.redactableBytes ty]).output = some q.buf.redactableBytes :=
+  sprint_reprint_identity env _ ty (sprintf_output_clean env he f hf args ha q h).2
 
 /-! Premises satisfiable: a clean environment and a clean argument list with a formatter that writes through the SafePrinter. -/
 example : EnvCl { render := fun _ _ => some [0x61, 0xC3, 0xA9], hook := none } ∧
